@@ -23,8 +23,15 @@ def dom_bitmap(ctx):
     zedges = []
     for b in range(body.n):
         sw = body.switch_on(b)
-        if sw and sw[0][0] == "bin" and sw[0][1] == "Eq" and sw[0][2][0] in ("arg", "var") and sw[0][2][1] == "width" and sw[0][3][:2] == ("const", 0) and 0 in sw[1]:
-            zedges.append(((b, sw[2]), (b, sw[1][0])))
+        if sw and sw[0][0] == "bin" and sw[0][1] in ("Eq", "Ne") and 0 in sw[1]:
+            l, rr = sw[0][2], sw[0][3]
+            is_w = lambda x: x[0] in ("arg", "var") and x[1] == "width"
+            is_0 = lambda x: x[:2] == ("const", 0)
+            if (is_w(l) and is_0(rr)) or (is_w(rr) and is_0(l)):
+                t_e, f_e = (b, sw[2]), (b, sw[1][0])
+                if sw[0][1] == "Ne":
+                    t_e, f_e = f_e, t_e
+                zedges.append((t_e, f_e))
     need(zedges, r, "try_from_bits", "(width == 0 test)")
     zt, zf = zedges[0]
     zs = sites.get("ZeroWidth", [])
@@ -249,4 +256,235 @@ def align_cover(ctx):
             ok = left and right and len(rej) == 1
     obs.append(Ob(r, "columns", ok, "every row piece has its first module checked against HIGH and its last module against the alternating bit"))
     obs += floor(obs, r, 6, "finder coverage obligations")
+    return obs
+
+
+# ---- renderer geometry and the parsed/constructed map's fields ---------------------------------------------
+
+MM = "placement::MatrixMap"
+
+
+def _self_field(x, name):
+    return isinstance(x, tuple) and x[0] == "field" and x[2] == name and is_var(x[1], "self")
+
+
+def prov_map(ctx):
+    """PROV-MAP: MatrixMap::new and try_from_bits fill the map's geometry fields from the right attribute of the size"""
+    r = "PROV-MAP"
+    f = ctx.facts()
+    obs = []
+    for fn in ("placement::MatrixMap::<M>::new", FN):
+        need(fn in f.thir, r, fn)
+        sts = T.stmts(f.thir[fn]["body"], {})
+        adts = []
+        for st in T.stmt_walk(sts):
+            for e in T.stmt_exprs(st):
+                for x in T.sx_walk(e):
+                    if isinstance(x, tuple) and x[0] == "adt" and x[1] == MM and x not in adts:
+                        adts.append(x)
+        ok = len(adts) == 1
+        det = None
+        if ok:
+            d = dict(adts[0][3])
+
+            def setup_f(x, name):
+                return x is not None and x[0] == "field" and x[2] == name and x[1][0] == "call" and x[1][1] == SS + "::block_setup" and is_var(x[1][2][0], "size")
+
+            def content(x, which):
+                return x is not None and x[0] == "call" and x[1].endswith("BlockSetup::content_" + which) and x[2][0][0] == "call" and x[2][0][1] == SS + "::block_setup"
+            checks = {
+                "width": content(d.get("width"), "width"),
+                "height": content(d.get("height"), "height"),
+                "extra_vertical_alignments": setup_f(d.get("extra_vertical_alignments"), "extra_vertical_alignments"),
+                "extra_horizontal_alignments": setup_f(d.get("extra_horizontal_alignments"), "extra_horizontal_alignments"),
+                "has_padding": d.get("has_padding") is not None and d["has_padding"][0] == "call" and d["has_padding"][1] == SS + "::has_padding_modules" and is_var(d["has_padding"][2][0], "size"),
+            }
+            det = {k: T.sx_show(d.get(k), 90) if d.get(k) else None for k in checks}
+            for k, v in checks.items():
+                obs.append(Ob(r, "%s:%s" % (fn.split("::")[-1], k), v, "%s: field %s comes from the matching attribute of `size`" % (fn.split("::")[-1], k), site=T.span_str(f.thir[fn]["span"]), detail=det[k]))
+        else:
+            obs.append(Ob(r, "%s:literal" % fn.split("::")[-1], False, "%s builds exactly one MatrixMap" % fn.split("::")[-1], detail=len(adts)))
+    obs += floor(obs, r, 10, "map field provenance")
+    return obs
+
+
+def render_geom(ctx):
+    """RENDER-GEOM: bitmap() draws the finder, clock tracks and alignment bars at the positions the parser reads them from"""
+    r = "RENDER-GEOM"
+    f = ctx.facts()
+    fn = "placement::MatrixMap::<M>::bitmap"
+    need(fn in f.thir, r, fn)
+    b = f.thir[fn]
+    sts = T.stmts(b["body"], {"__noinline__": True})
+    obs = []
+    lets = {}
+    for s in T.stmt_walk(sts):
+        if s[0] == "let" and not s[2]:
+            lets[s[1]] = s[3]
+
+    def full(x, d=10):
+        if not isinstance(x, tuple) or d == 0:
+            return x
+        if x[0] == "var" and len(x) > 2 and x[2] in lets and x[1] not in ("blk_h", "blk_w"):
+            return full(lets[x[2]], d - 1)
+        if x[0] == "bin":
+            return ("bin", x[1], full(x[2], d - 1), full(x[3], d - 1))
+        if x[0] == "cast":
+            return ("cast", full(x[1], d - 1), x[2])
+        return x
+
+    def atom(x):
+        if _self_field(x, "height"):
+            return "H"
+        if _self_field(x, "width"):
+            return "W"
+        if _self_field(x, "extra_horizontal_alignments"):
+            return "EH"
+        if _self_field(x, "extra_vertical_alignments"):
+            return "EV"
+        if is_var(x, "blk_h"):
+            return "BH"
+        if is_var(x, "blk_w"):
+            return "BW"
+        if x[0] == "var" and x[1] in ("i", "j", "b_i"):
+            return x[1].upper()
+        return None
+
+    def P(x):
+        return T.poly(full(x), atom)
+
+    def ob(key, ok, what, det=None):
+        obs.append(Ob(r, key, ok, what, site=T.span_str(b["span"]), detail=det))
+    h = lets.get(next((k for k in lets if k.startswith("h#")), None))
+    w = lets.get(next((k for k in lets if k.startswith("w#")), None))
+    need(h is not None and w is not None, r, fn, "(h, w)")
+    Hh = {("H",): 1, (): 2, ("EH",): 2}
+    Ww = {("W",): 1, (): 2, ("EV",): 2}
+    ob("height", P(h) == Hh, "bitmap height = content height + 2 + 2 * extra horizontal alignments", T.sx_show(h))
+    ob("width", P(w) == Ww, "bitmap width = content width + 2 + 2 * extra vertical alignments", T.sx_show(w))
+    # region sizes: (h - 2*(eh+1)) / (eh+1)
+    for nm, tot, ex, cont in (("blk_h", Hh, "EH", "H"), ("blk_w", Ww, "EV", "W")):
+        e = lets.get(next((k for k in lets if k.startswith(nm + "#")), None))
+        ok = e is not None and e[0] == "bin" and e[1] == "Div" and P(e[2]) == {(cont,): 1} and P(e[3]) == {(ex,): 1, (): 1}
+        ob(nm, ok, "%s = content size / number of regions" % nm, T.sx_show(e) if e else None)
+    # idx closure: i*w + j ; result Bitmap { width: w, bits }
+    cl = [n for n in f.thir if n.startswith(fn + "::{closure#0}")]
+    ok = False
+    if cl:
+        ce = T.sx(f.thir[cl[0]]["body"], {})
+        def at(x):
+            if x[0] == "var" and x[1] in ("i", "j"):
+                return x[1].upper()
+            if x[0] == "var" and x[1] == "w":
+                return "w"
+            return None
+        ok = T.poly(ce, at) == {("I", "w"): 1, ("J",): 1}
+    ob("index", ok, "pixel (i, j) is stored at i * w + j (row-major)")
+    res = sts[-1]
+    ok = res[0] == "expr" and res[1][0] == "adt" and res[1][1].endswith("Bitmap") and dict(res[1][3]).get("width", ("x",))[:2] == ("var", "w")
+    ob("result", ok, "the Bitmap carries width w")
+    # helper: stores grouped by enclosing loops
+    def loops_of(stl, ctxs=()):
+        for s in stl:
+            if s[0] == "for":
+                yield from loops_of(s[3], ctxs + (s,))
+            elif s[0] == "assign":
+                yield ctxs, s
+
+    def rng(s):
+        """(start poly, end poly, step) of `for v in a..b` / `(a..b).step_by(k)`"""
+        it = strip_into_iter(s[2])
+        step = 1
+        if it[0] == "call" and it[1].endswith("Iterator::step_by"):
+            step = it[2][1][1] if it[2][1][0] == "lit" else None
+            it = strip_into_iter(it[2][0])
+        rg = adt_fields(it, "core::ops::Range")
+        if not rg:
+            return None
+        return (P(rg["start"]), P(rg["end"]), step)
+
+    def store_pos(a):
+        c = [x for x in T.sx_walk(a[1]) if x[0] == "call" and "{closure#0}" in x[1]]
+        if not c:
+            return None
+        tup = c[0][2][1]
+        return (P(tup[1][0]), P(tup[1][1])) if tup[0] == "tuple" else None
+    stores = list(loops_of(sts))
+    RB = {(): 1, ("BH", "I"): 1, ("I",): 2, ("BH",): 1}       # rows_before(i) = 1 + (blk_h+2)*i + blk_h
+    CB = {(): 1, ("BW", "J"): 1, ("J",): 2, ("BW",): 1}
+    FULLW = ({}, Ww, 1)
+    found = set()
+    for ctxs, a in stores:
+        if not (a[2][0] == "const" and a[2][1].endswith("Bit::HIGH")):
+            continue
+        pos = store_pos(a)
+        if pos is None:
+            continue
+        rs = [rng(c) for c in ctxs]
+        vars_ = [c[1][0].split("#")[0] for c in ctxs]
+        row, col = pos
+        inner = rs[-1]
+        # interior horizontal bars
+        if len(ctxs) == 2 and vars_ == ["i", "j"] and rs[0] == ({}, {("EH",): 1}, 1):
+            if row == RB and col == {("J",): 1} and inner == ({}, Ww, 1):
+                found.add("hbar-solid")
+            RB1 = dict(RB); RB1[()] = 2
+            if row == RB1 and col == {("J",): 1} and inner == ({}, Ww, 2):
+                found.add("hbar-clock")
+        if len(ctxs) == 2 and vars_ == ["j", "i"] and rs[0] == ({}, {("EV",): 1}, 1):
+            CB1 = dict(CB); CB1[()] = 2
+            if col == CB1 and row == {("I",): 1} and inner == ({(): 1}, Hh, 1):
+                found.add("vbar-solid")
+            if col == CB and row == {("I",): 1} and inner == ({(): 1}, Hh, 2):
+                found.add("vbar-clock")
+        if len(ctxs) == 1:
+            Hm1 = dict(Hh); Hm1[()] = 1
+            Wm1 = dict(Ww); Wm1[()] = 1
+            if vars_ == ["j"] and row == Hm1 and col == {("J",): 1} and inner == ({}, Ww, 1):
+                found.add("bottom-solid")
+            if vars_ == ["j"] and row == {} and col == {("J",): 1} and inner == ({}, Ww, 2):
+                found.add("top-clock")
+            if vars_ == ["i"] and col == {} and row == {("I",): 1} and inner == ({}, Hh, 1):
+                found.add("left-solid")
+            if vars_ == ["i"] and col == Wm1 and row == {("I",): 1} and inner == ({(): 1}, Hh, 2):
+                found.add("right-clock")
+    names = {"hbar-solid": "every interior horizontal bar: solid row at 1 + (blk_h+2)*i + blk_h over the full width",
+             "hbar-clock": "followed by a clock row (every second module from column 0)",
+             "vbar-clock": "every interior vertical bar: clock column at 1 + (blk_w+2)*j + blk_w on odd rows",
+             "vbar-solid": "followed by a solid column (rows 1..h)",
+             "bottom-solid": "solid bottom row h-1", "top-clock": "clock top row (even columns)", "left-solid": "solid left column",
+             "right-clock": "clock right column (odd rows)"}
+    for k, wtxt in names.items():
+        ob("draw:" + k, k in found, "bitmap() draws " + wtxt)
+    high_stores = [1 for ctxs, a in stores if a[2][0] == "const" and a[2][1].endswith("Bit::HIGH")]
+    ob("draw:count", len(high_stores) == 8, "bitmap() has exactly these eight pattern stores (%d found)" % len(high_stores))
+    # data copy
+    copy = [s for s in sts if s[0] == "for" and any(x[0] == "field" and x[2] == "entries" for x in T.sx_walk(s[2]))]
+    ok = False
+    det = None
+    if len(copy) == 1:
+        body = copy[0][3]
+        li = [s for s in body if s[0] == "let" and s[2]]
+        ao = [s for s in body if s[0] == "assignop" and s[1] == "AddAssign"]
+        st = [s for s in body if s[0] == "assign"]
+        if len(li) == 2 and len(ao) == 2 and len(st) == 1:
+            def shape(letv, add, dim, blk):
+                name = letv[1].split("#")[0]
+                e = letv[3]
+                base_ok = e[0] == "bin" and e[1] == ("Div" if dim == "row" else "Rem") and is_var(e[2], "b_i") and _self_field(e[3], "width")
+                a = add[3]
+                # 1 + (v / blk) * 2
+                add_ok = is_var(add[2], name) and a[0] == "bin" and a[1] == "Add" and ("lit", 1) in (a[2], a[3])
+                other = a[3] if a[2] == ("lit", 1) else a[2]
+                add_ok = add_ok and other[0] == "bin" and other[1] == "Mul" and ("lit", 2) in (other[2], other[3])
+                q = other[2] if other[3] == ("lit", 2) else other[3]
+                add_ok = add_ok and q[0] == "bin" and q[1] == "Div" and is_var(q[2], name) and is_var(q[3], blk)
+                return base_ok and add_ok, name
+            r1, n1 = shape(li[0], ao[0], "row", "blk_h")
+            r2, n2 = shape(li[1], ao[1], "col", "blk_w")
+            pos = [x for x in T.sx_walk(st[0][1]) if x[0] == "call" and "{closure#0}" in x[1]]
+            ok = r1 and r2 and bool(pos) and pos[0][2][1][0] == "tuple" and is_var(pos[0][2][1][1][0], n1) and is_var(pos[0][2][1][1][1], n2) and st[0][2][0] in ("var",) 
+            det = [T.sx_show(x[3], 80) for x in li + ao]
+    ob("data-copy", ok, "content module b_i goes to row b_i / width, column b_i % width, each shifted by 1 + 2 * (index / region size)", det)
+    obs += floor(obs, r, 16, "renderer geometry obligations")
     return obs
